@@ -36,6 +36,9 @@ type Op struct {
 	// process; in the other executions the same call is made without the failing matcher
 	FailOnlyExec int   `json:"fail_only_exec,omitempty"`
 	Multi        []Val `json:"multi,omitempty"`
+	// Empty: MatchSnapshot(t) with no values at all (an empty slice spread into the call):
+	// a warning is logged, no slot is addressed, no ordinal consumed
+	Empty bool `json:"empty,omitempty"`
 }
 
 func (o Op) standalone() bool { return o.API == "ssnap" || o.API == "sjson" }
@@ -203,6 +206,17 @@ func (v Val) arg() any {
 	}
 }
 
+// nonDirDiff drops directory entries from a digest diff.
+func nonDirDiff(df []string) []string {
+	var out []string
+	for _, d := range df {
+		if !strings.HasSuffix(d, "/") {
+			out = append(out, d)
+		}
+	}
+	return out
+}
+
 // Invoke performs the real call.
 func (s *Sess) Invoke(t *vkit.T, o Op) {
 	c := s.config(o)
@@ -277,6 +291,20 @@ func (s *Sess) AddAddressable(file, id string) {
 func (s *Sess) Step(t *vkit.T, o Op, m vkit.Mode) StepResult {
 	s.Steps++
 	var res StepResult
+	if o.Empty {
+		vkit.Backdate(s.Root)
+		d0 := vkit.TakeDigest(s.Root)
+		s.config(o).MatchSnapshot(t)
+		res.Signals = t.Take()
+		res.Got, res.Expected = "noop", "noop"
+		if len(res.Signals.Errors) > 0 {
+			res.Problems = append(res.Problems, Problem{Kind: "call-without-values-reported-a-failure", Detail: firstErr(res.Signals)})
+		}
+		if df := d0.Diff(vkit.TakeDigest(s.Root), !s.StrictWrites); len(nonDirDiff(df)) > 0 {
+			res.Problems = append(res.Problems, Problem{Kind: "call-without-values-wrote", Detail: fmt.Sprint(df)})
+		}
+		return res
+	}
 	mayCreate, mayUpdate := vkit.Perm(m, o.Upd)
 
 	var key, path, id string
